@@ -314,6 +314,9 @@ pub enum BlockT {
 	FeeClaimLow,
 	CoinbaseOutputFlagRemoved,
 	CoinbaseKernelFlagRemoved,
+	/// neither a coinbase-flagged output nor a coinbase-flagged kernel: the reward is claimed by a
+	/// plain output under a plain kernel over the same excess (every sum still balances)
+	CoinbaseBothFlagsRemoved,
 	CoinbaseFlagOnRegularOutput,
 	/// the coinbase output carries the (valid) range proof of a different output
 	CoinbaseProofFromOtherOutput,
@@ -367,6 +370,7 @@ pub fn block_catalogue() -> Vec<BlockT> {
 		FeeClaimLow,
 		CoinbaseOutputFlagRemoved,
 		CoinbaseKernelFlagRemoved,
+		CoinbaseBothFlagsRemoved,
 		CoinbaseFlagOnRegularOutput,
 		CoinbaseProofFromOtherOutput,
 		CoinbaseProofScalarFlip,
@@ -492,6 +496,16 @@ pub fn tampered_block(
 		}
 		CoinbaseOutputFlagRemoved => {
 			cb_outs[0].identifier.features = OutputFeatures::Plain;
+			stage = Stage::CoinbaseRule;
+		}
+		CoinbaseBothFlagsRemoved => {
+			cb_outs[0].identifier.features = OutputFeatures::Plain;
+			let r = OutRef {
+				amount: reward,
+				key: cb_key,
+				cb: true,
+			};
+			cb_kerns = vec![sign_kernel(KernelSpec::plain(1).features(), &LIB.blind(&r))];
 			stage = Stage::CoinbaseRule;
 		}
 		CoinbaseKernelFlagRemoved => {
